@@ -178,6 +178,8 @@ mod response_body;
 mod time;
 mod token_set;
 mod util;
+#[cfg(feature = "verif_hooks")]
+pub mod verif;
 
 pub use crate::accept::{
     socket_addr_127_0_0_1, socket_addr_127_0_0_1_any_port, socket_addr_all_interfaces, PORT_env,
@@ -417,7 +419,11 @@ impl HttpServerBuilder {
             // Let's not make spawn accept_loop tasks, since that reduces throughput.
             // To speed this up, we could use a separate accepter thread, or multiple threads.
             accept_loop(self.permit, listener, token_set, conn_handler).await;
+            #[cfg(feature = "verif_hooks")]
+            crate::verif::emit("AcceptLoopReturned", 0, 0);
             // TODO: Wait for connection tokens to return.
+            #[cfg(feature = "verif_hooks")]
+            crate::verif::emit("StoppedSending", 0, 0);
             let _ignored = sender.send(());
         });
         Ok((addr, receiver))
